@@ -182,6 +182,9 @@ Lexical ==
                           SPrint(ECall(Nm(G), <<>>)), SPrint(ECall(EProp(Nm(O2), <<103, 101, 116>>), <<>>)), SPrint(ECall(Nm(G), <<>>)),
                           SDecl(Nm(O3), EObj(<<Pair(EStr(TAG), I(3)), Pair(EStr(<<103, 101, 116>>), Nm(G))>>)),
                           SPrint(ECall(EProp(Nm(O2), <<119, 104, 111>>), <<Nm(O3)>>)), SPrint(ECall(Nm(G), <<>>))>>,
+      typefnobj |-> <<SDecl(Nm(O1), EObj(<<Pair(EStr(FK), ETProp(EStr(<<104, 195, 169>>), N_len)),
+                                             Pair(EStr(<<103>>), ETProp(EList(<<>>), N_type))>>)),
+                      SPrint(I(1)), SPrint(ECall(EProp(Nm(O1), <<103>>), <<>>)), SPrint(ECall(EProp(Nm(O1), FK), <<>>))>>,
       typefnvar |-> <<SDecl(Nm(G), ETProp(EStr(<<97, 98>>), N_len)), SPrint(ECall(Nm(G), <<>>)),
                       SDecl(Nm(H), ETProp(EList(<<>>), N_type)), SPrint(ECall(Nm(H), <<>>))>> ]
 
